@@ -1678,6 +1678,7 @@ func (r *Run) bubble() {
 		r.setPhase("")
 		// every CommitWith callback is guaranteed to run, also when Close overtook it
 		for i := 0; i < 5000; i++ {
+			e.Point("client.poll") // park first: goroutines ended by Close wake without the scheduler
 			pending := 0
 			r.mu.Lock()
 			for _, cl := range r.cls {
@@ -1690,7 +1691,6 @@ func (r *Run) bubble() {
 			if i == 4999 {
 				r.violate([]string{"C38", "C03"}, "callback-never-ran", "%d CommitWith/Subscribe callbacks had not run 5000 scheduling steps after Close returned", pending)
 			}
-			e.Point("client.poll")
 		}
 		r.mu.Lock()
 		closed = true
